@@ -9,6 +9,8 @@ func init() {
 	hf := []HarnessFile{
 		{RepoDir: "machine/disk", Pkg: "disk", Src: "disk/zz_verif_c09.go"},
 		{RepoDir: "machine/async_disk", Pkg: "async_disk", Src: "async_disk/zz_verif_c09.go"},
+		{RepoDir: "machine/disk", Pkg: "disk", Src: "disk/zz_verif_c09file.go"},
+		{RepoDir: "machine/async_disk", Pkg: "async_disk", Src: "async_disk/zz_verif_c09file.go"},
 	}
 	big := engine.Options{Budget: 20_000_000}
 	Register(&Check{
@@ -23,6 +25,11 @@ func init() {
 			{PkgPath: diskPkg, Func: "verifC09MemTwo", Opt: big, Tiers: "thorough"},
 			{PkgPath: asyncPkg, Func: "verifC09AsyncMemFresh", Opt: big},
 			{PkgPath: asyncPkg, Func: "verifC09AsyncMemStep", Opt: big},
+			{PkgPath: diskPkg, Func: "verifC09FileFresh", Opt: big},
+			{PkgPath: diskPkg, Func: "verifC09FileStep", Opt: big},
+			{PkgPath: diskPkg, Func: "verifC09FileGlobal", Opt: big},
+			{PkgPath: diskPkg, Func: "verifC09FileTwo", Opt: big, Tiers: "thorough"},
+			{PkgPath: asyncPkg, Func: "verifC09AsyncFileStep", Opt: big},
 		},
 		Covers: []string{"c09/fresh", "c09/read", "c09/readto", "c09/write", "c09/size", "c09/barrier"},
 		Bounds: "n ≤ 3 blocks (forked); every block content (4096 symbolic bytes each), every 64-bit address, write-buffer length from {0,1,4095,4096,4097,8192}; one inductive step from an arbitrary reachable state (+ depth-2 histories in thorough)",
